@@ -211,7 +211,7 @@ pub fn main(env: &Env) -> i32 {
          a valid message built by the harness from the schema goes through the crate's decode + encode; the result must contain exactly the same fields and values (judged by the harness' own wire parser), be a fixed \
          point of canonical_raw and of decode + encode, and 8 re-serialisations (field permutation, re-chunked packing, varint padding) must normalise and decode to the same bytes; mux handshakes with their map \
          entries listed in another order must encode identically; non-trivial = nesting >= 3 or a repeated field with >= 2 entries; distinct = canonical bytes",
-        PartOpts { cases: env.tier.pick(12_000, 300_000), max_shrink_iters: 2000, samples: 3 },
+        PartOpts { cases: env.tier.pick(12_000, 200_000), max_shrink_iters: 2000, samples: 3 },
         move || (0..n, proptest::collection::vec(any::<u16>(), 0..120)).prop_map(|(ty, choices)| NetCase { ty, name: format!("{:?}", Wire::ALL[ty]), choices }),
         check_net,
     ));
@@ -225,7 +225,7 @@ pub fn main(env: &Env) -> i32 {
         env,
         "decoded_values",
         &what,
-        PartOpts { cases: env.tier.pick(40_000, 1_000_000), max_shrink_iters: 2000, samples: 3 },
+        PartOpts { cases: env.tier.pick(40_000, 600_000), max_shrink_iters: 2000, samples: 3 },
         move || (0..ntypes, proptest::collection::vec(any::<u16>(), 0..160)).prop_map(|(ty, choices)| c10::DecCase::new(ty, choices)),
         check_decoded,
     ));
